@@ -6,7 +6,8 @@
    (C16_shortest_full_statement below) — this is tied by certified sampling + comparison with strconv. *)
 From QF Require Import Base.Prelude Gen.GenConsts Gen.GenRyu Model.Ryu.
 From QF Require Import Proofs.RyuTables Proofs.RyuArith Proofs.RyuAppendF Proofs.RyuExactInt Proofs.RyuNoPanic
-                       Proofs.RyuShortest Proofs.RyuIntervalFrac Proofs.RyuIntervalMul.
+                       Proofs.RyuShortest Proofs.RyuIntervalFrac Proofs.RyuIntervalMul
+                       Proofs.RyuIntervalFinal Proofs.RyuIntervalLoops Proofs.RyuInterval.
 Local Open Scope N_scope.
 
 (* 1. every entry of the two 128-bit tables and of powersOf10 is the number the algorithm needs *)
@@ -166,6 +167,39 @@ Theorem C16_mulShift64_off_by_one :
      33542060588139028 * fst (ratio pl (e2_of 1797)) / snd (ratio pl (e2_of 1797)) = 1850063423920730048).
 Proof. exact mulShift64_off_by_one. Qed.
 Print Assumptions C16_mulShift64_off_by_one.
+
+(* 8. Stage 3 of the interval search: ALL of step 4 (f2d_step4: general loops, common loops, rounding) is
+   correct relative to step 3.  For a float unit A and decimal unit B (exact scaled values x A / B), mv = 4 m2,
+   mp = mv + 2, mm = mv - 1 or mv - 2: if the step-3 record satisfies the hand-over conditions [handover]
+   (vr, vm exact floors; vp/10 the exact floor of the upper bound one digit up; the two trailing-zero flags
+   sound, and complete one digit up — deliberately weak at level 0, where the Go flags are not always exact),
+   then step 4 returns (out, e10 + n) such that out is accepted by the certificate checker body at the scale
+   A : B 10^n, i.e. out * 10^n * B lies in the rounding interval [mm A, mp A] (bounds included iff ab), no
+   multiple of 10 does, and no neighbour in the interval is closer to mv A (ties: out even).
+   PARTIAL: the connection of this scale with shortest_b and the hand-over conditions for the output of
+   f2d_step3 are in the items below / in the remaining statement. *)
+Theorem C16_step4_shortest_partial (ab : bool) (mv mm mp A B : N) (st : step3) :
+  0 < A -> 0 < B -> 0 < mm -> (mv = mm + 1 \/ mv = mm + 2) -> mp = mv + 2 ->
+  handover ab mv mm mp A B st ->
+  (B = 1 \/ 10 * B <= A) ->
+  s_vp st < 2 ^ 64 -> s_vr st < 2 ^ 63 -> (-1000 <= s_e10 st <= 1000)%Z ->
+  (forall out e, f2d_step4 st ab = Ok (out, e) -> 0 < out) ->
+  exists (n : nat) (out : N),
+    (n < 100)%nat /\ f2d_step4 st ab = Ok (out, (s_e10 st + Z.of_nat n)%Z) /\
+    cert ab (mm * A) (mv * A) (mp * A) (B * 10 ^ N.of_nat n) out = true.
+Proof. exact (step4_certified ab mv mm mp A B st). Qed.
+Print Assumptions C16_step4_shortest_partial.
+Example C16_step4_example :          (* 0.1: the premises hold for what the model's step 3 returns *)
+  let mant := 0x999999999999A in let mv := 4 * (2 ^ 52 + mant) in
+  match f2d_step3 mant 1019, plan_of 1019 with
+  | Ok (st, ab), Ok pl =>
+      let '(A, B) := ratio_c pl (e2_of 1019) in
+      handover_b ab mv (mv - 2) (mv + 2) A B st = true /\ 10 * B <= A /\ s_vp st < 2 ^ 64 /\ s_vr st < 2 ^ 63 /\
+      f2d_step4 st ab = Ok (1, (s_e10 st + 18)%Z) /\
+      cert ab ((mv - 2) * A) (mv * A) ((mv + 2) * A) (B * 10 ^ 18) 1 = true
+  | _, _ => False
+  end.
+Proof. vm_compute. repeat split; discriminate || reflexivity. Qed.
 
 (* The full statement (NOT proved): for every finite non-zero float the pair found by the interval search
    is accepted by the checker, i.e. the text is the shortest closest decimal.  The engine checks this on
